@@ -210,6 +210,19 @@ pub fn generate(_ctx: &mut Ctx, seed: u64, i: usize, kind: &str, always_malforme
     let mut src = String::new();
     let pre = rng.below(3);
     for k in 0..pre { src += &format!("{}filler {k}{}\n", lang.open, lang.close); }
+    // one malformed case in four: a WELL-FORMED block of the same rule comes first in the file, violated, of low severity - its
+    // diagnostic alone would not fail the run, and it must not end the validator's pass over the file
+    if malformed && ["keep-sorted", "keep-unique", "line-pattern", "line-count"].contains(&kind) && rng.chance(1, 4) {
+        let (val, body) = match kind {
+            "keep-sorted" => ("asc", "b\na\n"),
+            "keep-unique" => ("", "a\na\n"),
+            "line-pattern" => ("^[a-z]+$", "A1\n"),
+            _ => ("<1", "x\n"),
+        };
+        if kind == "line-pattern" { patterns.push(val.to_string()); }
+        let sev = ["warning", "info", "hint"][rng.below(3)];
+        src += &format!("{}<block {kind}=\"{val}\" severity=\"{sev}\">{}\n{body}{}</block>{}\n", lang.open, lang.close, lang.open, lang.close);
+    }
     if let Some(ok) = &healthy_lua {
         // usually one or two healthy scripted blocks; one case in six has 20-40 of them (more than any pool of worker
         // threads or in-flight limit): the malformed block's error must still surface
@@ -322,6 +335,8 @@ pub fn generate(_ctx: &mut Ctx, seed: u64, i: usize, kind: &str, always_malforme
             src += &format!("{}<block name=\"late{k}\" check-lua=\"{ok}\">{}\nfine\n{}</block>{}\n", lang.open, lang.close, lang.open, lang.close);
         }
     }
+    // one file in twelve starts with a UTF-8 byte order mark: three bytes of line 1 like any others
+    if rng.chance(1, 12) { src.insert(0, '\u{feff}'); }
     let path = format!("f.{}", lang.ext);
     let changes = if all_changed {
         Some([(path.clone(), (1..=src.lines().count() + 1).map(|l| (l, None)).collect())].into_iter().collect())
